@@ -33,7 +33,7 @@
 //   hist <planner> SYS ENV starts <n> (<reals>)*n GOAL k=<n> bias=<bits> seed=<n> [steer=<0|1>] [nest=<n>] ops
 //        (solve <budget> | clear | clearsol | cb <lo0> <lo1> <hi0> <hi1> | mm <min> <max> | dt <bits> | setup)*      (see opHist)
 //   sampler (real <dim> <lo*dim> <hi*dim> | disc <lo> <hi>) lseed=<n> ops (B <bounds> | S | N | K <a> <b> | R <lseed>)*
-//   dsampler SYS ENV k=<n> lseed=<n> ops (B <lo0> <lo1> <hi0> <hi1> | M <min> <max> | D <dt> | R <lseed> | T <src> <dest>)*
+//   dsampler SYS ENV k=<n> lseed=<n> [steer=<0|1>] ops (B <lo0> <lo1> <hi0> <hi1> | M <min> <max> | D <dt> | R <lseed> | T <src> <dest>)*
 //   nest SYS ENV hook=<v|p> at=<k> CALL CALL      CALL ::= (pwv | prop) FORM <steps> st <reals> ct <reals>           (see opNest)
 //   plan <planner> SYS ENV starts <n> (<reals>)*n GOAL k=<n> steer=<0|1> bias=<bits> seed=<n> budget=<n>
 //
@@ -2267,11 +2267,17 @@ static std::string opDSampler(const Toks &t)
         throw vp::ParseError("pdim");
     unsigned k = needKV(t, i, "k");
     unsigned long lseed = needKV(t, i, "lseed");
+    // steer=1 (point system only): the SteeredControlSampler that allocDirectedControlSampler() hands out when the propagator
+    // can steer, kept across the same reconfigurations (it reads the step size at every call)
+    unsigned steer = 0;
+    if (i < t.size() && t[i].rfind("steer=", 0) == 0)
+        steer = needKV(t, i, "steer");
     expect(t, i, "ops");
-    if (k < 1 || k > 20)
+    if (k < 1 || k > 20 || steer > 1 || (steer && sys.kind != "point"))
         throw vp::ParseError("k");
     std::shared_ptr<SysPropagator> prop;
     auto si = makeSI(sys, prop);
+    prop->steerable = steer != 0;
     si->setStateValidityChecker(std::make_shared<EnvValidity>(si, env));
     const bool disc = sys.disc;
     sys.anyspace()->setControlSamplerAllocator([disc](const oc::ControlSpace *sp) -> oc::ControlSamplerPtr {
@@ -2280,8 +2286,22 @@ static std::string opDSampler(const Toks &t)
         return std::make_shared<RealSamplerX>(sp);
     });
     si->setup();
-    auto dsm = std::make_shared<SimpleDirX>(si.get(), k);
-    dsm->reseed(lseed);
+    oc::DirectedControlSamplerPtr dsm;
+    auto alloc = [&](unsigned long sd) {
+        if (steer)
+        {
+            dsm = si->allocDirectedControlSampler();
+            if (!dynamic_cast<oc::SteeredControlSampler *>(dsm.get()))
+                throw vp::ParseError("not steered");
+        }
+        else
+        {
+            auto x = std::make_shared<SimpleDirX>(si.get(), k);
+            x->reseed(sd);
+            dsm = x;
+        }
+    };
+    alloc(lseed);
     ob::State *src = si->allocState(), *dst = si->allocState();
     oc::Control *c = si->allocControl(), *prev = si->allocControl();
     si->nullControl(prev);
@@ -2320,13 +2340,20 @@ static std::string opDSampler(const Toks &t)
             else if (w == "R")
             {
                 unsigned long s2 = vp::needN(t, i);
-                dsm = std::make_shared<SimpleDirX>(si.get(), k);
-                dsm->reseed(s2);
+                alloc(s2);
             }
             else if (w == "T")
             {
                 sys.space->copyFromReals(src, needReals(t, i, sys.nreals()));
                 sys.space->copyFromReals(dst, needReals(t, i, sys.nreals()));
+                double dummy = 0;
+                if (steer && !prop->steer(src, dst, c, dummy))
+                {
+                    // steer() fails (source = destination): sampleTo returns 0 and leaves control and dest alone
+                    unsigned r0 = dsm->sampleTo(c, prev, src, dst);
+                    out += std::string(" T none") + (r0 == 0 ? "" : "!");
+                    continue;
+                }
                 unsigned r = dsm->sampleTo(c, prev, src, dst);
                 si->copyControl(prev, c);
                 out += " T " + showCt(c) + " " + std::to_string(r) + " " + showSt(sys, dst);
